@@ -19,6 +19,7 @@
 #include <random>
 #include <string>
 #include <thread>
+#include <vector>
 
 #include <unistd.h>
 
@@ -72,8 +73,86 @@ inline void jitter()
     }
 }
 
+// Schedule forcing (best effort): `gates` is a sequence of (thread tag, point) pairs taken from a TLC behaviour. A
+// thread that arrives at a point listed in the remaining sequence waits until its entry is at the head (or a short
+// timeout expires: the real code could not follow - the entry is dropped and the run goes on). Whatever schedule
+// results is recorded and validated like any other; forcing only steers which interleavings are seen.
+struct Gates
+{
+    std::mutex mx;
+    std::condition_variable cv;
+    std::vector<std::pair<std::string, std::string>> seq;
+    std::vector<char> done;
+    size_t head = 0;
+    int passed = 0, abandoned = 0;
+    int timeoutMs = 400;
+
+    void load(const std::vector<std::pair<std::string, std::string>> &s)
+    {
+        std::lock_guard<std::mutex> lk(mx);
+        seq = s;
+        done.assign(s.size(), 0);
+        head = 0;
+        passed = abandoned = 0;
+    }
+    // positions at which a thread holds no lock that the step it is about to take needs: it can be kept there
+    // until the behaviour says it is its turn to acquire
+    static bool holdPoint(const char *p)
+    {
+        static const char *pts[] = { "pm.enter", "oth.enter", "rs.enter", "mv.enter", "rs.wait.unlock", "wk.begin", "wk.processed",
+                                     "wk.end" };
+        for (const char *x : pts)
+            if (!strcmp(x, p))
+                return true;
+        return false;
+    }
+    void arrive(const char *who, const char *point)
+    {
+        std::unique_lock<std::mutex> lk(mx);
+        if (head >= seq.size())
+            return;
+        size_t mine = seq.size();
+        for (size_t i = head; i < seq.size(); ++i) {
+            if (!done[i] && seq[i].first == who && seq[i].second == point) {
+                mine = i;
+                break;
+            }
+        }
+        if (mine == seq.size())
+            return;
+        // the entry is consumed by arriving
+        done[mine] = 1;
+        if (mine == head)
+            ++passed;
+        while (head < seq.size() && done[head])
+            ++head;
+        cv.notify_all();
+        if (!holdPoint(point))
+            return;
+        // held here until everything that precedes this thread's next entry has happened
+        size_t next = seq.size();
+        for (size_t i = mine + 1; i < seq.size(); ++i) {
+            if (!done[i] && seq[i].first == who) {
+                next = i;
+                break;
+            }
+        }
+        if (next == seq.size())
+            return;
+        const auto deadline = std::chrono::steady_clock::now() + std::chrono::milliseconds(timeoutMs);
+        while (head < next) {
+            if (cv.wait_until(lk, deadline) == std::cv_status::timeout) {
+                ++abandoned;
+                break;
+            }
+        }
+    }
+};
+inline Gates g_gates;
+
 inline void pointCb(const char *point, const void *, long long a, long long b)
 {
+    g_gates.arrive(tag(), point);
     QJsonObject o;
     o["e"] = "Pt";
     o["t"] = tag();
@@ -157,6 +236,9 @@ struct Probes
 {
     Gate gate;
     int sinkDelayUs = 0;
+    int stallMs = 0;                 // the first delivery takes this long (once)
+    int relog = 0;                   // the sink itself logs this many messages (while it handles p1's first message)
+    std::atomic<bool> stalled { false };
 
     HandlerPtr enter()
     {
@@ -176,6 +258,8 @@ struct Probes
             gate.wait();
             if (sinkDelayUs > 0)
                 std::this_thread::sleep_for(std::chrono::microseconds(sinkDelayUs));
+            if (stallMs > 0 && !stalled.exchange(true))
+                std::this_thread::sleep_for(std::chrono::milliseconds(stallMs));
             QJsonObject o;
             o["e"] = "Deliver";
             o["t"] = tag();
@@ -186,6 +270,39 @@ struct Probes
             o["time"] = relMs(m.time());
             emitLine(o);
             jitter();
+            if (relog > 0 && m.message().startsWith(QStringLiteral("p1:1:"))) {
+                // a handler that logs: the nested calls are made from whatever thread runs the pipeline; they are
+                // shown to the specification as the calls of a producer of their own ("pw")
+                const std::string saved = t_tag;
+                t_tag = "pw";
+                const QString tid = QString::number(quint64(reinterpret_cast<quintptr>(QThread::currentThreadId())));
+                for (int i = 1; i <= relog; ++i) {
+                    const QString text = QStringLiteral("pw:%1:nested").arg(i);
+                    QJsonObject f;
+                    f["type"] = "info";
+                    f["text"] = text;
+                    f["file"] = "sink.cpp";
+                    f["line"] = 900 + i;
+                    f["func"] = "void sink()";
+                    f["cat"] = "sink";
+                    f["tid"] = tid;
+                    QJsonObject b;
+                    b["e"] = "CallBegin";
+                    b["t"] = "pw";
+                    b["m"] = msgId(text);
+                    b["f"] = f;
+                    b["ms"] = nowRelMs();
+                    emitLine(b);
+                    QMessageLogger("sink.cpp", 900 + i, "void sink()", "sink").info("%s", text.toUtf8().constData());
+                    QJsonObject e;
+                    e["e"] = "CallEnd";
+                    e["t"] = "pw";
+                    e["m"] = msgId(text);
+                    e["ms"] = nowRelMs();
+                    emitLine(e);
+                }
+                t_tag = saved;
+            }
             return true;
         });
     }
